@@ -118,6 +118,61 @@ def relevant_slice(fs, goal, rounds):
     return [a for i, a in enumerate(fs) if chosen[i]]
 
 
+def discharge_portfolio(obl, timeout_ms, axioms=(), want_model=True, seeds=(0, 7, 23, 101)):
+    """second attempt at an `unknown`: z3 under several random seeds and cvc5, concurrently, the
+    first definite answer wins (e-matching proofs that take 50 ms under one seed can run for
+    minutes under another; a portfolio makes the verdict independent of that)"""
+    from concurrent.futures import ThreadPoolExecutor, as_completed
+    t0 = time.time()
+    fs, goal = formulas_for(obl, axioms)
+    s = z3.Solver()
+    for f in fs:
+        s.add(f)
+    s.add(z3.Not(goal))
+    txt = s.to_smt2()
+    jobs = [('z3[seed=%d]' % k, lambda k=k: run_z3_text(txt, timeout_ms, want_model, extra=('smt.random_seed=%d' % k,)))
+            for k in seeds]
+    jobs.append(('cvc5', lambda: run_cvc5_text(txt, timeout_ms, want_model)))
+    best = None
+    with ThreadPoolExecutor(max_workers=len(jobs)) as pool:
+        futs = dict((pool.submit(fn), name) for name, fn in jobs)
+        for fu in as_completed(futs):
+            st, d2, model = fu.result()
+            if st in ('unsat', 'sat') and best is None:
+                best = (st, futs[fu], model)
+                _kill_children()
+    if best:
+        return Result(obl.name, obl.kind, best[0], best[1], time.time() - t0, model=best[2], line=obl.line,
+                      fn=obl.fn, case=obl.case, size=len(txt), detail='portfolio')
+    return Result(obl.name, obl.kind, 'unknown', 'z3x%d+cvc5' % len(seeds), time.time() - t0, line=obl.line,
+                  fn=obl.fn, case=obl.case, size=len(txt), detail='portfolio: all unknown')
+
+
+_running = set()
+
+
+def _kill_children():
+    for p in list(_running):
+        try:
+            p.kill()
+        except Exception:
+            pass
+
+
+def _run_proc(argv, secs):
+    p = subprocess.Popen(argv, stdout=subprocess.PIPE, stderr=subprocess.PIPE, text=True)
+    _running.add(p)
+    try:
+        out, err = p.communicate(timeout=secs)
+        return out, err
+    except subprocess.TimeoutExpired:
+        p.kill()
+        p.communicate()
+        return None, None
+    finally:
+        _running.discard(p)
+
+
 def discharge(obl, timeout_ms=10000, axioms=(), want_model=True, try_cvc5=True):
     """z3 first for container VCs; cvc5 first for float-model VCs (mixed integer/real linear
     arithmetic with tiny coefficients, where z3's simplex stalls and cvc5 answers in
@@ -173,7 +228,7 @@ def discharge(obl, timeout_ms=10000, axioms=(), want_model=True, try_cvc5=True):
                   fn=obl.fn, case=obl.case, size=size, detail=detail.strip())
 
 
-def run_z3_text(txt, timeout_ms, want_model=False):
+def run_z3_text(txt, timeout_ms, want_model=False, extra=()):
     """z3 as a subprocess (z3-new 5.1): a hard wall-clock limit, unlike the in-process timeout"""
     if want_model:
         txt = txt + '\n(get-model)\n'
@@ -182,11 +237,12 @@ def run_z3_text(txt, timeout_ms, want_model=False):
         with os.fdopen(fd, 'w') as f:
             f.write(txt)
         secs = max(1, int(round(timeout_ms / 1000.0)))
-        try:
-            p = subprocess.run(['z3-new', '-T:%d' % secs, path], capture_output=True, text=True,
-                               timeout=secs + 5)
-        except subprocess.TimeoutExpired:
+        so, se = _run_proc(['z3-new', '-T:%d' % secs] + list(extra) + [path], secs + 5)
+        if so is None:
             return 'unknown', 'timeout', None
+
+        class p:
+            stdout, stderr = so, se
         out = p.stdout.strip().splitlines()
         if out and out[0] in ('unsat', 'sat', 'unknown'):
             model = None
@@ -211,11 +267,12 @@ def run_cvc5_text(txt, timeout_ms, want_model=False):
     try:
         with os.fdopen(fd, 'w') as f:
             f.write(txt)
-        try:
-            p = subprocess.run(['/usr/bin/cvc5', '--tlimit=%d' % timeout_ms, path],
-                               capture_output=True, text=True, timeout=timeout_ms / 1000.0 + 5)
-        except subprocess.TimeoutExpired:
+        so, se = _run_proc(['/usr/bin/cvc5', '--tlimit=%d' % timeout_ms, path], timeout_ms / 1000.0 + 5)
+        if so is None:
             return 'unknown', 'timeout', None
+
+        class p:
+            stdout, stderr = so, se
         out = p.stdout.strip().splitlines()
         if out and out[0] in ('unsat', 'sat', 'unknown'):
             model = None
